@@ -94,7 +94,9 @@ class Finders:
     if gfa_line.record_type == "L":
       found = self._search_link(gfa_line.oriented_from, gfa_line.oriented_to,
                                 gfa_line.alignment)
-      if found is None:
+      if found is None or found.virtual:
+        # a placeholder for the link does not make its ID available, if
+        # another line has it already
         same_id = self.line(gfa_line.name)
         if same_id is not None and not same_id.virtual:
           found = same_id
